@@ -7,6 +7,7 @@ V_ROOT = os.path.dirname(os.path.dirname(os.path.dirname(os.path.abspath(__file_
 MUT = '/tmp/c06-mutants-wt'
 V = MUT + '/verifier/verifier.go'
 H = MUT + '/verifier/helpers.go'
+T = MUT + '/verifier/trustpolicy/trustpolicy.go'
 SA = 'if authenticSigningTime.Before(cert.NotBefore) || authenticSigningTime.After(cert.NotAfter) {'
 VERIFY_CALL = '''	tsaCertChain, err := signedToken.Verify(ctx, x509.VerifyOptions{
 		CurrentTime: timestamp.Value,
@@ -97,6 +98,9 @@ muts = {
  # round 4: the TSA revocation check must not depend on the level shape; EKUs nest along the TSA path
  'U01_tsa_revocation_skipped_when_timestamp_only_logged': (V, '\tlogger.Debug("Checking timestamping certificate chain revocation...")\n', '\tif outcome.VerificationLevel.Enforcement[trustpolicy.TypeAuthenticTimestamp] == trustpolicy.ActionLog && outcome.VerificationLevel.Enforcement[trustpolicy.TypeRevocation] != trustpolicy.ActionEnforce {\n\t\treturn nil\n\t}\n\tlogger.Debug("Checking timestamping certificate chain revocation...")\n'),
  'U02_tsa_path_for_any_eku': (V, '\t\tCurrentTime: timestamp.Value,\n\t\tRoots:       rootCertPool,\n', '\t\tCurrentTime: timestamp.Value,\n\t\tRoots:       rootCertPool,\n\t\tKeyUsages:   []x509.ExtKeyUsage{x509.ExtKeyUsageAny},\n'),
+ # round 5: spelling of the store types (T = verifier/trustpolicy/trustpolicy.go)
+ 'V01_store_type_spaces_trimmed_but_tsa_listing_exact': (H, '\t\tif trustStoreType != truststore.Type(storeType) {', '\t\tif string(trustStoreType) != strings.TrimSpace(storeType) {', '\n', None, (T, '\t\tif s == string(p) {', '\t\tif strings.TrimSpace(s) == string(p) {')),
+ 'V02_store_type_case_accepted_by_validation_only': (T, '\t\tif s == string(p) {', '\t\tif strings.EqualFold(s, string(p)) {'),
  'B01_expiry_boundary_only(harness-unobservable, tie catches)': (V, '!expiry.IsZero() && !time.Now().Before(expiry)', '!expiry.IsZero() && time.Now().After(expiry)'),
  # behaviour-preserving
  'R01_message_changed': (V, 'return errors.New("no timestamp countersignature was found in the signature envelope")', 'return errors.New("the envelope carries no RFC 3161 countersignature")'),
@@ -123,17 +127,23 @@ def run(name):
     if s.count(old) != 1:
         print(name, '| PATTERN-COUNT', s.count(old)); return
     s = s.replace(old, new)
-    if len(m) > 4:
+    if len(m) > 4 and m[4]:
         o2, n2 = m[4]
         if s.count(o2) != 1:
             print(name, '| PATTERN2-COUNT', s.count(o2)); return
         s = s.replace(o2, n2)
-    if len(m) > 3:
+    if len(m) > 3 and m[3] and m[3].strip():
         s += '\n' + m[3]
         if '"sync"' not in s:
             s = s.replace('import (\n', 'import (\n\t"sync"\n', 1)
     open(f, 'w').write(s)
-    b = subprocess.run(['go', 'build', './verifier/'], cwd=MUT, env=GOENV, capture_output=True, text=True)
+    if len(m) > 5:
+        f2, o3, n3 = m[5]
+        s2 = open(f2).read()
+        if s2.count(o3) != 1:
+            print(name, '| PATTERN3-COUNT', s2.count(o3)); return
+        open(f2, 'w').write(s2.replace(o3, n3))
+    b = subprocess.run(['go', 'build', './verifier/...'], cwd=MUT, env=GOENV, capture_output=True, text=True)
     if b.returncode != 0:
         print(name, '| DOES-NOT-COMPILE', (b.stdout + b.stderr)[-600:]); return
     p = subprocess.run(['./check', 'C06'], cwd=V_ROOT, env=dict(GOENV, VERIF_REPO=MUT), capture_output=True, text=True)
